@@ -1,17 +1,18 @@
 package main
 
 import (
-	"reflect"
 	"bytes"
 	"crypto/sha256"
 	"encoding/hex"
 	"encoding/json"
 	"fmt"
+	"go.dedis.ch/kyber/v3/util/encoding"
 	"io/ioutil"
 	"math/rand"
 	"os"
 	"os/exec"
 	"path/filepath"
+	"reflect"
 	"runtime"
 	"sort"
 	"strconv"
@@ -876,6 +877,164 @@ func c18exec(c *h.Ctx, cs *h.Case) {
 				cs.Fail("write-read-differs", fmt.Sprintf("private configuration differs after write and read:\n%s\n%s\n%s", before, second, written))
 			}
 			outs = append(outs, "savetext:"+c18class(second))
+		case len(tk) == 3 && tk[1] == "pubtext":
+			// what a server publishes about itself: the private configuration is loaded, NewServerToml /
+			// NewGroupToml / String make the group definition (and the single-server snippet) from it; the
+			// group definition must read as the public half of the identity the private one gives
+			bad, ok := c18badPrivate(text)
+			if !haveText {
+				break
+			}
+			if !ok || bad != tk[2] {
+				obs = "bad-text"
+				break
+			}
+			file := newFile(".private.toml")
+			c18ensure(file, text)
+			hc, err := app.LoadCothority(file)
+			os.Remove(file)
+			if err != nil {
+				obs = "load-err"
+				break
+			}
+			func() {
+				defer func() {
+					if r := recover(); r != nil {
+						obs = "panic"
+					}
+				}()
+				si, err := hc.GetServerIdentity()
+				if err != nil {
+					obs = "err"
+					return
+				}
+				suite, err := suites.Find(hc.Suite)
+				if err != nil {
+					obs = "err"
+					return
+				}
+				before := fmt.Sprint(hc.Services)
+				written := app.NewGroupToml(app.NewServerToml(suite, si.Public, hc.Address, hc.Description, hc.Services)).String()
+				single := app.NewServerToml(suite, si.Public, hc.Address, hc.Description, hc.Services).String()
+				if fmt.Sprint(hc.Services) != before {
+					cs.Fail("save-loses-content", "NewServerToml changed the service entries of the loaded configuration")
+				}
+				file2 := newFile(".group.toml")
+				c18ensure(file2, written)
+				second, g2, note := c18readGroup(file2)
+				if strings.HasPrefix(second, "io-error") {
+					c18ensure(file2, written)
+					second, g2, note = c18readGroup(file2)
+				}
+				os.Remove(file2)
+				obs = "text=" + c18hex(written) + " single=" + c18hex(single) + " " + second
+				if note != "" {
+					cs.Fail("roster-id-not-from-keys", note)
+				}
+				// oracle: the published identity is the public half of the private one
+				if g2 == nil || g2.Roster == nil || len(g2.Roster.List) != 1 {
+					cs.Fail("public-vs-private", "the group definition made from a private configuration does not read as one server: "+second+"\n"+written)
+					return
+				}
+				pub := g2.Roster.List[0]
+				wantDesc := hc.Description
+				if wantDesc == "" {
+					wantDesc = "Description of your server"
+				}
+				same := pub.Public.Equal(si.Public) && pub.Address == si.Address && pub.Description == wantDesc
+				// every service key pair of the private identity is published; a published key the private
+				// identity lacks is one whose private half in the file is no scalar (the group file has no
+				// private halves, so its reader has nothing to stumble over)
+				j := 0
+				for _, a := range pub.ServiceIdentities {
+					if j < len(si.ServiceIdentities) && a.Name == si.ServiceIdentities[j].Name {
+						b := si.ServiceIdentities[j]
+						same = same && a.Suite == b.Suite && a.Public.Equal(b.Public)
+						j++
+						continue
+					}
+					sc, ok := hc.Services[a.Name]
+					ssuite := onet.ServiceFactory.Suite(a.Name)
+					if !ok || ssuite == nil {
+						same = false
+						continue
+					}
+					if _, err := encoding.StringHexToScalar(ssuite, sc.Private); err == nil && sc.Private != "" {
+						same = false
+					}
+				}
+				same = same && j == len(si.ServiceIdentities)
+				if !same {
+					d1, _ := c18dump([]*network.ServerIdentity{si})
+					cs.Fail("public-vs-private", fmt.Sprintf("the group definition made from a private configuration reads as another identity:\nprivate %s\npublic  %s\n%s", d1, second, written))
+				}
+			}()
+			outs = append(outs, "pubtext:"+c18class(obs[strings.LastIndex(obs, " ")+1:]))
+		case len(tk) == 3 && tk[1] == "rostertoml":
+			// the roster of the group goes through Roster.Toml / WriteTomlConfig / ReadTomlConfig / RosterToml.Roster
+			bad, ok := c18badGroup(text)
+			if !haveText {
+				break
+			}
+			if !ok || bad != tk[2] {
+				obs = "bad-text"
+				break
+			}
+			file := newFile(".group.toml")
+			c18ensure(file, text)
+			first, g, _ := c18readGroup(file)
+			os.Remove(file)
+			if g == nil || g.Roster == nil {
+				obs = first
+				break
+			}
+			func() {
+				defer func() {
+					if r := recover(); r != nil {
+						obs = "panic"
+					}
+				}()
+				gt := &app.GroupToml{}
+				toml.Decode(text, gt)
+				label := "Ed25519"
+				if len(gt.Servers) > 0 && gt.Servers[0].Suite != "" {
+					label = gt.Servers[0].Suite
+				}
+				suite, err := suites.Find(label)
+				if err != nil {
+					return
+				}
+				file2 := newFile(".roster.toml")
+				os.MkdirAll(filepath.Dir(file2), 0700)
+				onet.WriteTomlConfig(g.Roster.Toml(suite), filepath.Base(file2), filepath.Dir(file2))
+				rt := &onet.RosterToml{}
+				if err := onet.ReadTomlConfig(rt, filepath.Base(file2), filepath.Dir(file2)); err != nil {
+					os.MkdirAll(filepath.Dir(file2), 0700) // swept by a concurrent run: once more
+					onet.WriteTomlConfig(g.Roster.Toml(suite), filepath.Base(file2), filepath.Dir(file2))
+					err = onet.ReadTomlConfig(rt, filepath.Base(file2), filepath.Dir(file2))
+					if err != nil {
+						obs = "io-error"
+						return
+					}
+				}
+				os.Remove(file2)
+				ro2 := rt.Roster(suite)
+				d, _ := c18dump(ro2.List)
+				obs = d
+				if !ro2.ID.Equal(g.Roster.ID) {
+					cs.Fail("roster-toml-differs", fmt.Sprintf("the roster id changed on the way through its TOML form: %s / %s", g.Roster.ID, ro2.ID))
+				}
+				if len(ro2.List) != len(g.Roster.List) {
+					cs.Fail("roster-toml-differs", "number of servers changed on the way through the roster's TOML form")
+					return
+				}
+				for i, si := range ro2.List {
+					if si.Public == nil || !si.Public.Equal(g.Roster.List[i].Public) || si.Address != g.Roster.List[i].Address {
+						cs.Fail("roster-toml-differs", fmt.Sprintf("server %d: key or address changed on the way through the roster's TOML form", i))
+					}
+				}
+			}()
+			outs = append(outs, "rostertoml:"+c18class(obs))
 		case len(tk) == 3 && tk[1] == "reload":
 			// the file written by the last resave, read again - possibly by a process (here: a registry)
 			// that knows services the saving one did not
@@ -1318,6 +1477,9 @@ func c18generate(c *h.Ctx, yield func(*h.Case)) {
 			cs.Ops = append(cs.Ops, "c18 text "+c18hex(text), fmt.Sprintf("c18 readtext %d %s %s", reads, c18b(child), bad))
 			if writeSuite != "" {
 				cs.Ops = append(cs.Ops, fmt.Sprintf("c18 writetext %s %s", c18hex(writeSuite), bad))
+				if g.r.Intn(3) == 0 {
+					cs.Ops = append(cs.Ops, "c18 rostertoml "+bad)
+				}
 			}
 			c.Count("kind=group-text")
 			yield(cs)
@@ -1344,6 +1506,9 @@ func c18generate(c *h.Ctx, yield func(*h.Case)) {
 		if bad, ok := c18badPrivate(text); ok && (textLevel || (resaveHistory == "" && g.r.Intn(3) == 0)) {
 			cs.Class = "text:" + class
 			cs.Ops = append(cs.Ops, "c18 text "+c18hex(text), fmt.Sprintf("c18 readprivtext %d %s %s", reads, c18b(child), bad), "c18 savetext "+bad)
+			if g.r.Intn(2) == 0 {
+				cs.Ops = append(cs.Ops, "c18 pubtext "+bad)
+			}
 			c.Count("kind=private-text")
 			yield(cs)
 			return
@@ -1409,7 +1574,7 @@ func c18generate(c *h.Ctx, yield func(*h.Case)) {
 			srv("Public", "servers", "  unknownKey = \"x\"\n  UnknownKey = \"y\"\n"),
 			srv("Public", "servers", "") + srv("Public", "Servers", ""),
 			srv("Public", "Servers", "") + srv("Public", "Servers", ""), // consistently another spelling: read
-			srv("public", "servers", ""),                              // lower-case key alone: read
+			srv("public", "servers", ""),                                // lower-case key alone: read
 			srv("Public", "servers", fmt.Sprintf("  [servers.Services.c18svcEd]\n    Public = \"%s\"\n    Suite = \"Ed25519\"\n  [servers.services.c18aaa]\n    Public = \"%s\"\n    Suite = \"Ed25519\"\n", k2.pub, k3.pub)),
 			srv("Public", "servers", fmt.Sprintf("  [servers.Services.c18svcEd]\n    Public = \"%s\"\n    public = \"%s\"\n    Suite = \"Ed25519\"\n", k2.pub, k3.pub)),
 			srv("Public", "servers", fmt.Sprintf("  [servers.Services.c18svcEd]\n    Public = \"%s\"\n    Suite = \"Ed25519\"\n  [Servers.Services.c18aaa]\n    Public = \"%s\"\n    Suite = \"Ed25519\"\n", k2.pub, k3.pub)),
@@ -1471,6 +1636,46 @@ func c18generate(c *h.Ctx, yield func(*h.Case)) {
 			}
 			g.r.Shuffle(len(fields), func(a, b int) { fields[a], fields[b] = fields[b], fields[a] })
 			emitPrivate("string-escapes:private", strings.Join(fields, "\n")+"\n", 3, i%10 == 0)
+		}
+	}
+	// ---- service names the writer has to quote: registered for the case, used as `[servers.Services."…"]`
+	// tables, read, written, read again. A name with a backslash does not survive (the writer escapes only
+	// `"` in a quoted key) - model and code agree on what happens, the round-trip oracle leaves it out.
+	{
+		odd := []string{"c18n.dot", "c18n space", "c18n\"quote", "c18nünï", "c18n-dash_1", "c18n'apos", "c18n#hash", "c18n]br", "c18n=eq", "c18n日本", "c18n\\back", "c18n\\quirk", "c18n\ttab"}
+		for i := 0; i < c.Pick(12, 60); i++ {
+			perm := g.r.Perm(len(odd))
+			names := []string{}
+			for _, j := range perm[:1+g.r.Intn(4)] {
+				names = append(names, fmt.Sprintf("%s%d", odd[j], i))
+			}
+			stub := func(c *onet.Context) (onet.Service, error) { return nil, fmt.Errorf("verification stub") }
+			for j, nme := range names {
+				onet.RegisterNewServiceWithSuite(nme, suites.MustFind([]string{"Ed25519", "P256"}[j%2]), stub)
+			}
+			cs := &h.Case{Class: "text:service-names"}
+			cs.Ops = append(cs.Ops, pre...)
+			var sb strings.Builder
+			sb.WriteString(fmt.Sprintf("[[servers]]\n  Address = \"tcp://127.0.0.1:7000\"\n  Suite = \"Ed25519\"\n  Public = \"%s\"\n  Description = \"names\"\n", g.key("Ed25519").pub))
+			for j, nme := range names {
+				su := []string{"Ed25519", "P256"}[j%2]
+				cs.Ops = append(cs.Ops, fmt.Sprintf("c18 regadd %s %s", c18hex(nme), c18hex(su)))
+				sb.WriteString(fmt.Sprintf("  [servers.Services.%s]\n    Public = \"%s\"\n    Suite = \"%s\"\n", c18quote(nme), g.key(su).pub, su))
+			}
+			txt := sb.String()
+			bad, ok := c18badGroup(txt)
+			for _, nme := range names {
+				onet.UnregisterService(nme)
+			}
+			if !ok {
+				continue
+			}
+			cs.Ops = append(cs.Ops, "c18 text "+c18hex(txt), "c18 readtext 3 0 "+bad, "c18 writetext "+c18hex("Ed25519")+" "+bad, "c18 rostertoml "+bad)
+			for _, nme := range names {
+				cs.Ops = append(cs.Ops, "c18 regdel "+c18hex(nme))
+			}
+			c.Count("kind=service-names")
+			yield(cs)
 		}
 	}
 	textLevel = false
